@@ -73,6 +73,11 @@ def bindRest (σ : Store) (ρ : Nat) (rest : Option String) (restArgs : List Val
   | some r => σ.define ρ r (Value.ofList restArgs)
   | none => σ
 
+/-- bind names to values pairwise, in order, in frame `ρ` -/
+def bindAll (σ : Store) (ρ : Nat) : List String → List Value → Store
+  | x :: xs, v :: vs => bindAll (σ.define ρ x v) ρ xs vs
+  | _, _ => σ
+
 /-- internal definitions, fuel-free: each right-hand side is evaluated (by `ev`) in frame `ρ`, in
 the store in which all earlier definitions have already been bound in frame `ρ` -/
 def DefsSeq (ev : Store → Expr → Except SErr Value → Store → Prop) (ρ : Nat) :
